@@ -1,9 +1,11 @@
 """C10 - queries never change the configuration."""
 from vlib import gen_ops
+from gen import extract_facts
+generate_facts = extract_facts.generate
 
 ID = "C10"
-LEAN_MODULES = ["Econf.Props.C10"]
-THEOREMS = ["Econf.C10_readonly", "Econf.C10_later_answers", "Econf.C10_later_write"]
+LEAN_MODULES = ["Econf.Props.C10", "Econf.Props.Tie"]
+THEOREMS = ["Econf.C10_readonly", "Econf.C10_later_answers", "Econf.C10_later_write", "Econf.Struct.C10_frames", "Econf.Struct.api_frames"]
 RULE = ("random configurations (parsed and built, with mixed-case, boolean-like and non-boolean values) x random sequences of 1..40 "
         "read-only calls (listings, typed/defaulted/extended getters incl. failing ones, path/tag queries, writes, use as merge input); "
         "the full dump (entries, comments, line numbers, public view, written bytes) before and after must be identical; "
